@@ -19,3 +19,4 @@ open SSVerif.Hist
 #print axioms SSVerif.C03Frames.C03_last_segment_within_M
 #print axioms SSVerif.C03Frames.search_frame_counts_steps
 #print axioms SSVerif.C03Frames.returns_sum
+#print axioms SSVerif.C03Frames.C03_frames_equal_frameCount
